@@ -60,7 +60,9 @@ public:
 
     this->str = new uchar[maxlength + 1];
 
-    if (prefixLen > 0)
+    // The prefix is only needed when there is something to enumerate; a
+    // prefix matching nothing can be longer than the buffer (maxlength)
+    if ((prefixLen > 0) && (left <= right))
       strncpy((char *)this->str, (char *)prefix, this->strLen);
     else
       this->str[0] = 0;
